@@ -1,4 +1,18 @@
 // K-2Q: TwoQueueCache contracts (C08, and C01/C02/C03/C05/C12/C13/C14 for this cache type).
+// Non-blocking check: Kani's `assert!` assumes its condition afterwards, so the first failing conjunct of a contract
+// would hide every later one on the same path (and with it the verdicts of the other properties that harness serves).
+// `ck!` performs the check on a nondeterministically chosen side branch, so every conjunct is reported independently.
+macro_rules! ck {
+    ($c:expr, $m:literal) => {
+        if kani::any::<bool>() {
+            assert!($c, $m);
+        }
+    };
+    ($c:expr) => {
+        assert!($c)
+    };
+}
+
 use super::*;
 use crate::verif_hooks::gen::{any_abs, build, N};
 use crate::verif_hooks::spec::*;
@@ -25,14 +39,14 @@ pub fn any_tq() -> (Tq, TqAbs) {
 
 macro_rules! tq_inv {
     ($c:expr, $wf:expr, $pre:expr, $post:expr) => {
-        assert!($wf, "[C03.wf] recent, frequent and ghost lists are well-formed chains matching their indexes (nodes migrate between them)");
-        assert!($post.recent.n + $post.frequent.n <= $post.size, "[C01.cap] resident entries (recent + frequent) never exceed cap()");
-        assert!($post.ghost.n <= $post.ghost.cap, "[C01.cap] the ghost list stays within its bound");
-        assert!($post.size == $pre.size && $post.recent_size == $pre.recent_size && $post.recent.cap == $pre.size
+        ck!($wf, "[C03.wf] recent, frequent and ghost lists are well-formed chains matching their indexes (nodes migrate between them)");
+        ck!($post.recent.n + $post.frequent.n <= $post.size, "[C01.cap] resident entries (recent + frequent) never exceed cap()");
+        ck!($post.ghost.n <= $post.ghost.cap, "[C01.cap] the ghost list stays within its bound");
+        ck!($post.size == $pre.size && $post.recent_size == $pre.recent_size && $post.recent.cap == $pre.size
             && $post.frequent.cap == $pre.size && $post.ghost.cap == $pre.ghost.cap, "[C01.cap] configured sizes never change");
-        assert!(partitioned(&[&$post.recent, &$post.frequent, &$post.ghost]), "[C01.partition] a key is held in at most one of recent / frequent / ghost");
-        assert!($c.len() == $post.recent.n + $post.frequent.n && $c.cap() == $pre.size, "[C01.len] len() counts the resident entries, cap() is the configured size");
-        assert!($c.is_empty() == ($post.recent.n + $post.frequent.n + $post.ghost.n == 0), "[C01.empty] is_empty() iff nothing (resident or ghost) is retained");
+        ck!(partitioned(&[&$post.recent, &$post.frequent, &$post.ghost]), "[C01.partition] a key is held in at most one of recent / frequent / ghost");
+        ck!($c.len() == $post.recent.n + $post.frequent.n && $c.cap() == $pre.size, "[C01.len] len() counts the resident entries, cap() is the configured size");
+        ck!($c.is_empty() == ($post.recent.n + $post.frequent.n + $post.ghost.n == 0), "[C01.empty] is_empty() iff nothing (resident or ghost) is retained");
     };
 }
 
@@ -91,59 +105,59 @@ fn tq_put() {
     tq_inv!(c, wf, pre, post);
     if in_frequent {
         let i = pre.frequent.pos(k).unwrap();
-        assert!(pr_of(&r) == PR::Update(pre.frequent.v[i]), "[C12.result] put on a frequent entry returns Update(old)");
-        assert!(post.frequent.view_eq(&pre.frequent.touch(i, Some(v))) && post.recent == pre.recent && post.ghost == pre.ghost,
+        ck!(pr_of(&r) == PR::Update(pre.frequent.v[i]), "[C12.result] put on a frequent entry returns Update(old)");
+        ck!(post.frequent.view_eq(&pre.frequent.touch(i, Some(v))) && post.recent == pre.recent && post.ghost == pre.ghost,
             "[C08.frequent][C02.value] put on a frequent entry refreshes it with the new value; nothing else changes");
     } else if in_recent {
         let i = pre.recent.pos(k).unwrap();
-        assert!(pr_of(&r) == PR::Update(pre.recent.v[i]), "[C12.result] put on a recent entry returns Update(old)");
-        assert!(post.recent.view_eq(&pre.recent.remove_at(i)) && post.frequent.view_eq(&pre.frequent.push_front(k, v)) && post.ghost == pre.ghost,
+        ck!(pr_of(&r) == PR::Update(pre.recent.v[i]), "[C12.result] put on a recent entry returns Update(old)");
+        ck!(post.recent.view_eq(&pre.recent.remove_at(i)) && post.frequent.view_eq(&pre.frequent.push_front(k, v)) && post.ghost == pre.ghost,
             "[C08.promote][C02.value] a second access by put moves the entry from recent to the front of frequent with the new value");
     } else if in_ghost {
         let gi = pre.ghost.pos(k).unwrap();
         let old = pre.ghost.v[gi];
         let ghost_wo_k = pre.ghost.remove_at(gi);
-        assert!(put_result_truthful(&[&pre.recent, &pre.frequent, &pre.ghost], &[&post.recent, &post.frequent, &post.ghost], k, v, pr_of(&r)),
+        ck!(put_result_truthful(&[&pre.recent, &pre.frequent, &pre.ghost], &[&post.recent, &post.frequent, &post.ghost], k, v, pr_of(&r)),
             "[C12.result][C12.delta] a put on a ghost key reports Update(old) (or EvictedAndUpdate when the ghost list overflowed) and nothing else leaves");
         if !full {
-            assert!(pr_of(&r) == PR::Update(old), "[C12.result][C08.revive] reviving a ghost returns Update(old)");
-            assert!(post.frequent.view_eq(&pre.frequent.push_front(k, v)) && post.recent == pre.recent && post.ghost.view_eq(&ghost_wo_k),
+            ck!(pr_of(&r) == PR::Update(old), "[C12.result][C08.revive] reviving a ghost returns Update(old)");
+            ck!(post.frequent.view_eq(&pre.frequent.push_front(k, v)) && post.recent == pre.recent && post.ghost.view_eq(&ghost_wo_k),
                 "[C08.revive][C02.value] a put on a ghost key revives it directly into the front of frequent");
         } else {
             let from_recent = victim_from_recent(&pre, false);
             let (vk, vv) = if from_recent { pre.recent.last().unwrap() } else { pre.frequent.last().unwrap() };
             let (er, ef) = if from_recent { (pre.recent.drop_last(), pre.frequent) } else { (pre.recent, pre.frequent.drop_last()) };
-            assert!(post.recent.view_eq(&er) && post.frequent.view_eq(&ef.push_front(k, v)),
+            ck!(post.recent.view_eq(&er) && post.frequent.view_eq(&ef.push_front(k, v)),
                 "[C08.victim][C08.revive] full cache: the victim is recent's LRU if recent is over quota, else frequent's LRU (falling back to the non-empty queue); the ghost key is revived into the front of frequent");
-            assert!(post.ghost.first() == Some((vk, vv)) && !post.ghost.has(k), "[C08.ghost] the victim becomes the most recent ghost; the revived key is no longer a ghost");
+            ck!(post.ghost.first() == Some((vk, vv)) && !post.ghost.has(k), "[C08.ghost] the victim becomes the most recent ghost; the revived key is no longer a ghost");
             match pr_of(&r) {
-                PR::Update(o) => assert!(o == old && post.ghost.view_eq(&ghost_wo_k.push_front(vk, vv)), "[C08.ghost][C12.result] ghost list = old ghosts minus the revived key, plus the victim at the front"),
+                PR::Update(o) => ck!(o == old && post.ghost.view_eq(&ghost_wo_k.push_front(vk, vv)), "[C08.ghost][C12.result] ghost list = old ghosts minus the revived key, plus the victim at the front"),
                 PR::EvictedAndUpdate(ek, ev, o) => {
                     // the ghost list overflowed before the revived key was taken out: it dropped its own least-recent entry
                     let gl = pre.ghost.last().unwrap();
-                    assert!(o == old && (ek, ev) == gl && pre.ghost.n == pre.ghost.cap,
+                    ck!(o == old && (ek, ev) == gl && pre.ghost.n == pre.ghost.cap,
                         "[C08.ghost][C12.result] only an overflowing ghost list drops an entry, and then its own least-recent one");
                     let gj = ghost_wo_k.pos(ek).unwrap();
-                    assert!(post.ghost.view_eq(&ghost_wo_k.remove_at(gj).push_front(vk, vv)), "[C08.ghost] remaining ghosts keep their order");
+                    ck!(post.ghost.view_eq(&ghost_wo_k.remove_at(gj).push_front(vk, vv)), "[C08.ghost] remaining ghosts keep their order");
                 }
-                _ => assert!(false, "[C12.result] a put on a ghost key is an update"),
+                _ => ck!(false, "[C12.result] a put on a ghost key is an update"),
             }
         }
     } else if is_new {
-        assert!(put_result_truthful(&[&pre.recent, &pre.frequent, &pre.ghost], &[&post.recent, &post.frequent, &post.ghost], k, v, pr_of(&r)),
+        ck!(put_result_truthful(&[&pre.recent, &pre.frequent, &pre.ghost], &[&post.recent, &post.frequent, &post.ghost], k, v, pr_of(&r)),
             "[C12.result][C12.delta] a put of a new key reports Put, or Evicted with the ghost entry that was dropped; nothing else leaves");
-        assert!(post.recent.first() == Some((k, v)), "[C08.enter][C02.value] a key seen once lives at the front of the recent queue");
+        ck!(post.recent.first() == Some((k, v)), "[C08.enter][C02.value] a key seen once lives at the front of the recent queue");
         if !full {
-            assert!(pr_of(&r) == PR::Put && post.recent.view_eq(&pre.recent.push_front(k, v)) && post.frequent == pre.frequent && post.ghost == pre.ghost,
+            ck!(pr_of(&r) == PR::Put && post.recent.view_eq(&pre.recent.push_front(k, v)) && post.frequent == pre.frequent && post.ghost == pre.ghost,
                 "[C08.enter][C12.result] with room nothing else changes and the result is Put");
         } else {
             let from_recent = victim_from_recent(&pre, true);
             let (vk, vv) = if from_recent { pre.recent.last().unwrap() } else { pre.frequent.last().unwrap() };
             let (er, ef) = if from_recent { (pre.recent.drop_last(), pre.frequent) } else { (pre.recent, pre.frequent.drop_last()) };
-            assert!(post.recent.view_eq(&er.push_front(k, v)) && post.frequent.view_eq(&ef),
+            ck!(post.recent.view_eq(&er.push_front(k, v)) && post.frequent.view_eq(&ef),
                 "[C08.victim] full cache: the victim is recent's LRU if recent is at or over quota, else frequent's LRU, falling back to the non-empty queue");
             let (eg, egr) = spec_lru_put(&pre.ghost, vk, vv);
-            assert!(post.ghost.view_eq(&eg) && pr_of(&r) == egr, "[C08.ghost][C12.result] the victim becomes the most recent ghost; an overflowing ghost list drops its own least-recent entry, which is reported");
+            ck!(post.ghost.view_eq(&eg) && pr_of(&r) == egr, "[C08.ghost][C12.result] the victim becomes the most recent ghost; an overflowing ghost list drops its own least-recent entry, which is reported");
         }
     }
     c.verif_forget();
@@ -165,15 +179,15 @@ fn tq_get() {
     let (post, wf) = c.verif_check();
     tq_inv!(c, wf, pre, post);
     let nv = if mutable { Some(w) } else { None };
-    assert!(r == lookup(&[&pre.recent, &pre.frequent], k), "[C02.lookup] get/get_mut return exactly the stored value of a resident key; ghosts and absent keys give None");
+    ck!(r == lookup(&[&pre.recent, &pre.frequent], k), "[C02.lookup] get/get_mut return exactly the stored value of a resident key; ghosts and absent keys give None");
     if let Some(i) = pre.frequent.pos(k) {
-        assert!(post.frequent.view_eq(&pre.frequent.touch(i, nv)) && post.recent == pre.recent && post.ghost == pre.ghost, "[C08.frequent][C02.write] a hit on a frequent entry refreshes it");
+        ck!(post.frequent.view_eq(&pre.frequent.touch(i, nv)) && post.recent == pre.recent && post.ghost == pre.ghost, "[C08.frequent][C02.write] a hit on a frequent entry refreshes it");
     } else if let Some(i) = pre.recent.pos(k) {
         let nvv = match nv { Some(x) => x, None => pre.recent.v[i] };
-        assert!(post.recent.view_eq(&pre.recent.remove_at(i)) && post.frequent.view_eq(&pre.frequent.push_front(k, nvv)) && post.ghost == pre.ghost,
+        ck!(post.recent.view_eq(&pre.recent.remove_at(i)) && post.frequent.view_eq(&pre.frequent.push_front(k, nvv)) && post.ghost == pre.ghost,
             "[C08.promote][C02.write] a second access by get/get_mut moves the entry from recent to the front of frequent");
     } else {
-        assert!(post == pre, "[C13.miss][C08.miss] a miss (or a ghost key) changes nothing");
+        ck!(post == pre, "[C13.miss][C08.miss] a miss (or a ghost key) changes nothing");
     }
     c.verif_forget();
 }
@@ -187,13 +201,13 @@ fn tq_readonly() {
     kani::cover!(pre.recent.has(k), "2q peek: recent hit");
     kani::cover!(pre.ghost.has(k), "2q peek: ghost key");
     let want = lookup(&[&pre.recent, &pre.frequent], k);
-    assert!(c.peek(&k).copied() == want, "[C02.lookup] peek returns exactly the stored value of a resident key, None otherwise");
-    assert!(c.peek_mut(&k).map(|x| *x) == want, "[C02.lookup] peek_mut hands out the stored value of a resident key, None otherwise");
-    assert!(c.contains(&k) == want.is_some(), "[C02.lookup] contains agrees with residency (a ghost is not resident)");
-    assert!(c.recent_len() == pre.recent.n && c.frequent_len() == pre.frequent.n && c.ghost_len() == pre.ghost.n, "[C01.len] per-queue len accessors report the queue's own length");
+    ck!(c.peek(&k).copied() == want, "[C02.lookup] peek returns exactly the stored value of a resident key, None otherwise");
+    ck!(c.peek_mut(&k).map(|x| *x) == want, "[C02.lookup] peek_mut hands out the stored value of a resident key, None otherwise");
+    ck!(c.contains(&k) == want.is_some(), "[C02.lookup] contains agrees with residency (a ghost is not resident)");
+    ck!(c.recent_len() == pre.recent.n && c.frequent_len() == pre.frequent.n && c.ghost_len() == pre.ghost.n, "[C01.len] per-queue len accessors report the queue's own length");
     let (post, wf) = c.verif_check();
     tq_inv!(c, wf, pre, post);
-    assert!(post == pre, "[C13.readonly] peek, peek_mut (no write), contains, len/cap and per-queue len accessors leave all three queues unchanged");
+    ck!(post == pre, "[C13.readonly] peek, peek_mut (no write), contains, len/cap and per-queue len accessors leave all three queues unchanged");
     c.verif_forget();
 }
 
@@ -210,7 +224,7 @@ fn tq_peek_mut_write() {
     let mut exp = pre;
     if let Some(i) = pre.frequent.pos(k) { exp.frequent = pre.frequent.with_val(i, w); }
     if let Some(i) = pre.recent.pos(k) { exp.recent = pre.recent.with_val(i, w); }
-    assert!(post == exp && c.peek(&k).copied() == Some(w), "[C02.write][C13.readonly] a write through peek_mut lands in that entry; order and everything else unchanged");
+    ck!(post == exp && c.peek(&k).copied() == Some(w), "[C02.write][C13.readonly] a write through peek_mut lands in that entry; order and everything else unchanged");
     c.verif_forget();
 }
 
@@ -228,25 +242,25 @@ fn tq_remove_purge() {
         c.purge();
         let (post, wf) = c.verif_check();
         tq_inv!(c, wf, pre, post);
-        assert!(post.recent.n == 0 && post.frequent.n == 0 && post.ghost.n == 0 && c.is_empty(), "[C08.purge][C02.absent] purge releases every resident and ghost entry");
+        ck!(post.recent.n == 0 && post.frequent.n == 0 && post.ghost.n == 0 && c.is_empty(), "[C08.purge][C02.absent] purge releases every resident and ghost entry");
     } else {
         let r = c.remove(&k);
         let (post, wf) = c.verif_check();
         tq_inv!(c, wf, pre, post);
         if let Some(val) = lookup(&[&pre.recent, &pre.frequent], k) {
-            assert!(r == Some(val), "[C02.remove] remove hands back the stored value of a resident key");
+            ck!(r == Some(val), "[C02.remove] remove hands back the stored value of a resident key");
         }
         if lookup(&[&pre.recent, &pre.frequent, &pre.ghost], k).is_none() {
-            assert!(r.is_none() && post == pre, "[C02.remove] removing a key that is not retained returns None and changes nothing");
+            ck!(r.is_none() && post == pre, "[C02.remove] removing a key that is not retained returns None and changes nothing");
         }
-        assert!(!c.contains(&k) && holders(&[&post.recent, &post.frequent], k) == 0, "[C02.absent] a removed key is no longer resident");
+        ck!(!c.contains(&k) && holders(&[&post.recent, &post.frequent], k) == 0, "[C02.absent] a removed key is no longer resident");
         let mut exp = pre;
         if let Some(i) = pre.frequent.pos(k) { exp.frequent = pre.frequent.remove_at(i); }
         if let Some(i) = pre.recent.pos(k) { exp.recent = pre.recent.remove_at(i); }
-        assert!(post.recent == exp.recent.canon() && post.frequent == exp.frequent.canon(), "[C08.remove][C02.map] remove takes out exactly that key from the resident queues; order of everything else kept");
+        ck!(post.recent == exp.recent.canon() && post.frequent == exp.frequent.canon(), "[C08.remove][C02.map] remove takes out exactly that key from the resident queues; order of everything else kept");
         // the statement says nothing about ghosts of a removed key: the ghost list is unchanged or has lost exactly that key
         let ghost_wo = match pre.ghost.pos(k) { Some(i) => pre.ghost.remove_at(i), None => pre.ghost.canon() };
-        assert!(post.ghost == pre.ghost.canon() || post.ghost == ghost_wo, "[C08.remove] remove leaves the other ghosts alone");
+        ck!(post.ghost == pre.ghost.canon() || post.ghost == ghost_wo, "[C08.remove] remove leaves the other ghosts alone");
     }
     c.verif_forget();
 }
@@ -289,15 +303,15 @@ fn tq_iter_accessors() {
                 first_len!(c.ghost_values_lru(), |x: &u8| *x), first_len!(c.ghost_values_mut(), |x: &mut u8| *x), first_len!(c.ghost_values_lru_mut(), |x: &mut u8| *x),
             ),
         };
-        assert!(m1 == (a.n, first) && m3 == (a.n, first), "[C14.accessor] *_iter / *_iter_mut hand out that queue's most-recent-first iterator");
-        assert!(m2 == (a.n, last) && m4 == (a.n, last), "[C14.accessor] *_iter_lru / *_iter_lru_mut hand out that queue's least-recent-first iterator");
-        assert!(m5 == (a.n, first.map(|p| p.0)) && m6 == (a.n, last.map(|p| p.0)), "[C14.accessor] *_keys / *_keys_lru hand out that queue's key iterators");
-        assert!(m7 == (a.n, first.map(|p| p.1)) && m8 == (a.n, last.map(|p| p.1)) && m9 == (a.n, first.map(|p| p.1)) && m10 == (a.n, last.map(|p| p.1)),
+        ck!(m1 == (a.n, first) && m3 == (a.n, first), "[C14.accessor] *_iter / *_iter_mut hand out that queue's most-recent-first iterator");
+        ck!(m2 == (a.n, last) && m4 == (a.n, last), "[C14.accessor] *_iter_lru / *_iter_lru_mut hand out that queue's least-recent-first iterator");
+        ck!(m5 == (a.n, first.map(|p| p.0)) && m6 == (a.n, last.map(|p| p.0)), "[C14.accessor] *_keys / *_keys_lru hand out that queue's key iterators");
+        ck!(m7 == (a.n, first.map(|p| p.1)) && m8 == (a.n, last.map(|p| p.1)) && m9 == (a.n, first.map(|p| p.1)) && m10 == (a.n, last.map(|p| p.1)),
             "[C14.accessor] *_values(_lru)(_mut) hand out that queue's value iterators");
         li += 1;
     }
     let (post, wf) = c.verif_check();
-    assert!(wf && post == pre, "[C13.readonly][C14.readonly] creating the per-queue iterators changes nothing");
+    ck!(wf && post == pre, "[C13.readonly][C14.readonly] creating the per-queue iterators changes nothing");
     c.verif_forget();
 }
 
@@ -309,7 +323,7 @@ fn tq_builder_sound() {
     kani::cover!(a.recent_size == 0, "2q builder: quota 0");
     kani::cover!(a.recent_size == a.size, "2q builder: quota == size");
     let (b, wf) = c.verif_check();
-    assert!(wf && b == a, "[C03.builder] every TwoQueueCache state the builder produces is well formed with exactly the intended view");
+    ck!(wf && b == a, "[C03.builder] every TwoQueueCache state the builder produces is well formed with exactly the intended view");
     c.verif_forget();
 }
 
@@ -346,17 +360,17 @@ fn tq_builder_finalize_contract() {
     let quota = crate::polyfill::floor((size as f64) * rr) as usize;
     let ghost = crate::polyfill::floor((size as f64) * gr) as usize;
     match r {
-        Err(CacheError::InvalidSize(s)) => assert!(s == 0 && (size == 0 || (ratio_ok(rr) && ratio_ok(gr) && ghost == 0)), "[C05.ctor] InvalidSize(0) exactly for size 0 or a ghost bound that floors to 0"),
-        Err(CacheError::InvalidRecentRatio(x)) => assert!(size != 0 && !ratio_ok(rr) && (x == rr || rr != rr), "[C05.ctor] InvalidRecentRatio exactly for a recent ratio outside [0,1] or NaN"),
-        Err(CacheError::InvalidGhostRatio(x)) => assert!(size != 0 && ratio_ok(rr) && !ratio_ok(gr) && (x == gr || gr != gr), "[C05.ctor] InvalidGhostRatio exactly for a ghost ratio outside [0,1] or NaN"),
+        Err(CacheError::InvalidSize(s)) => ck!(s == 0 && (size == 0 || (ratio_ok(rr) && ratio_ok(gr) && ghost == 0)), "[C05.ctor] InvalidSize(0) exactly for size 0 or a ghost bound that floors to 0"),
+        Err(CacheError::InvalidRecentRatio(x)) => ck!(size != 0 && !ratio_ok(rr) && (x == rr || rr != rr), "[C05.ctor] InvalidRecentRatio exactly for a recent ratio outside [0,1] or NaN"),
+        Err(CacheError::InvalidGhostRatio(x)) => ck!(size != 0 && ratio_ok(rr) && !ratio_ok(gr) && (x == gr || gr != gr), "[C05.ctor] InvalidGhostRatio exactly for a ghost ratio outside [0,1] or NaN"),
         Ok(c) => {
-            assert!(size != 0 && ratio_ok(rr) && ratio_ok(gr) && ghost != 0, "[C05.ctor] construction succeeds only for valid arguments");
+            ck!(size != 0 && ratio_ok(rr) && ratio_ok(gr) && ghost != 0, "[C05.ctor] construction succeeds only for valid arguments");
             let (a, wf) = c.verif_check();
-            assert!(wf && a.recent.n == 0 && a.frequent.n == 0 && a.ghost.n == 0, "[C05.ctor][C03.wf] a fresh 2Q cache is empty and well formed");
-            assert!(a.size == size && a.recent.cap == size && a.frequent.cap == size, "[C08.sizes] both resident queues can hold `size` entries");
-            assert!(a.recent_size == quota, "[C08.sizes] the recent quota is floor(size x recent ratio)");
-            assert!(a.ghost.cap == ghost, "[C08.sizes] the ghost bound is floor(size x ghost ratio)");
-            assert!(quota <= size && ghost <= size, "[C01.cap][C08.sizes] quota and ghost bound never exceed the size");
+            ck!(wf && a.recent.n == 0 && a.frequent.n == 0 && a.ghost.n == 0, "[C05.ctor][C03.wf] a fresh 2Q cache is empty and well formed");
+            ck!(a.size == size && a.recent.cap == size && a.frequent.cap == size, "[C08.sizes] both resident queues can hold `size` entries");
+            ck!(a.recent_size == quota, "[C08.sizes] the recent quota is floor(size x recent ratio)");
+            ck!(a.ghost.cap == ghost, "[C08.sizes] the ghost bound is floor(size x ghost ratio)");
+            ck!(quota <= size && ghost <= size, "[C01.cap][C08.sizes] quota and ghost bound never exceed the size");
             c.verif_forget();
         }
     }
@@ -392,14 +406,14 @@ fn tq_put_leakcheck() {
     let r = c.put(Tk(k), Tv(v));
     drop(r);
     if hit {
-        assert!(drops(k) == 1, "[C04.once] on an update or revival the surplus key object is dropped exactly once");
+        ck!(drops(k) == 1, "[C04.once] on an update or revival the surplus key object is dropped exactly once");
         set_drops(k, 0);
     }
     let (post, wf) = c.verif_check();
-    assert!(wf, "[C03.wf] queues well formed after put with heap-tracked payloads");
-    assert!(conserved(created, ids_of(&[&post.recent, &post.frequent, &post.ghost])), "[C04.once] after put every key and value is retained (resident or ghost), or was handed back, or was dropped exactly once");
+    ck!(wf, "[C03.wf] queues well formed after put with heap-tracked payloads");
+    ck!(conserved(created, ids_of(&[&post.recent, &post.frequent, &post.ghost])), "[C04.once] after put every key and value is retained (resident or ghost), or was handed back, or was dropped exactly once");
     drop(c);
-    assert!(conserved(created, 0), "[C04.drop] dropping the cache releases every retained key and value exactly once");
+    ck!(conserved(created, 0), "[C04.drop] dropping the cache releases every retained key and value exactly once");
 }
 
 // ------------------------------------------------------------------ ownership with heap-owning values (C04), cheap variant
@@ -431,11 +445,11 @@ fn tq_put_boxed_values() {
         PutResult::EvictedAndUpdate { update, .. } => Some(**update),
     };
     if let Some(x) = lookup(&[&recent, &frequent, &ghost], k) {
-        assert!(back == Some(x), "[C04.handback][C12.result] the old value handed back by an update or revival is the stored one, still alive");
+        ck!(back == Some(x), "[C04.handback][C12.result] the old value handed back by an update or revival is the stored one, still alive");
     }
     drop(r);
     let (post, wf) = c.verif_check();
-    assert!(wf, "[C03.wf] queues well formed with heap-owning values");
-    assert!(lookup(&[&post.recent, &post.frequent], k) == Some(v), "[C04.alive][C02.value] the stored value is alive and is the one just put");
+    ck!(wf, "[C03.wf] queues well formed with heap-owning values");
+    ck!(lookup(&[&post.recent, &post.frequent], k) == Some(v), "[C04.alive][C02.value] the stored value is alive and is the one just put");
     c.verif_forget();
 }
